@@ -5,7 +5,7 @@ import math
 import os
 import traceback
 
-from . import REPO
+from . import REPO, VERIF_ROOT
 
 
 class Violation(Exception):
@@ -66,7 +66,12 @@ def call(fn, *args, **kwargs):
     BaseException subclasses used by the harness itself (evaluation cap) pass through."""
     try:
         return fn(*args, **kwargs)
+    except (Violation, Discard):
+        raise
     except Exception as exc:  # noqa: BLE001 - deliberate: classification happens in the oracle
+        tb = traceback.extract_tb(exc.__traceback__)
+        if tb and os.path.dirname(os.path.abspath(tb[-1].filename)).startswith(os.path.join(VERIF_ROOT, "pvverif")):
+            raise  # raised by harness code itself (innermost frame in pvverif): a harness bug, never an outcome of the code under test
         return Raised(exc)
 
 
